@@ -421,6 +421,13 @@ STATEMENT_FORMS = {
     "fn-lambda-then-binding": "def _f():\n    _k = lambda z: z\n    V = 'local'\n    return _k(V)\nout = _f() + V",
     "fn-nested-def-then-for": "def _f():\n    def _g():\n        return 1\n    for V in ['x']:\n        pass\n    return V * _g()\nout = _f() + V",
     "fn-lambda-then-import": "def _f():\n    _k = (lambda: 0)()\n    import os.path as V\n    return V.sep\nout = _f() + V",
+    # comprehensions inside function / lambda / class bodies: their targets are theirs, wherever they are read
+    "fn-comp-if-own-target": "def _f(_s):\n    return [_n for _n in _s if _n != V]\nout = _f(['a', V])",
+    "lambda-comp-if-own-target": "_f = lambda _s: {_n for _n in _s if _n and len(_n) > 1}\nout = sorted(_f(['', 'ab', V]))",
+    "fn-dictcomp-if-own-target": "def _f(_s):\n    return {_k: _v for _k, _v in _s if _k is not None and _v}\nout = _f([(1, V), (None, 2), (3, 0)])",
+    "fn-genexp-if-own-target": "def _f(_s):\n    return sum(1 for _n in _s if _n == V)\nout = _f([V, 'x', V])",
+    "class-comp-if-own-target": "class _C:\n    a = [_n for _n in ['p', 'qq'] if len(_n) > 1]\nout = _C.a + [V]",
+    "fn-nested-comp-if": "def _f(_s):\n    return [[_m for _m in _n if _m != _n[0]] for _n in _s if _n]\nout = _f(['', V + 'zz'])",
     "def-body": "def _f():\n    return V\nout = _f()",
     "def-default": "def _f(a=V):\n    return a\nout = _f()",
     "def-kwonly-default": "def _f(*, a=V):\n    return a\nout = _f()",
